@@ -465,27 +465,19 @@ def run(ctx):
                   'configuration-file value', ctx.where(pm, fn))
     T = W.term
     f1 = find(f'_f_ = {T}.pop(_k_)', fn)
-    ok = False
+    ctx.anchor(len(f1) >= 2, 'terminal file/path extraction in the parser')
     for n_, b_ in f1:
-        if has(f'if {b_["_f_"]} is None:\n    {b_["_f_"]} = _d_', fn) and \
-                has(f'_d_ = _all_.pop({b_["_k_"]}, __)', fn):
-            ok = True
-    ctx.check('C18.Q4.precedence', '[files] file names', ok,
-              'terminal file names do not override the configuration file',
-              ctx.where(pm, fn))
-    p1 = find(f"_p_ = {T}.pop('path')", fn)
-    ok = len(p1) == 1
-    if ok:
-        P = p1[0][1]['_p_']
-        ok = has(f"if {P} is None:\n    {P} = _all_.pop('path', '.')", fn)
-        if not ok:
-            for n_, b_ in find(f"if {P} is None:\n    {P} = _c_", fn):
-                if isinstance(b_['_c_'], str) and has(
-                        f"{b_['_c_']} = _all_.pop('path', '.')", fn):
-                    ok = True
-    ctx.check('C18.Q4.precedence', '[files] path', ok,
-              'terminal --path does not override the configuration file',
-              ctx.where(pm, fn))
+        F, K = b_['_f_'], b_['_k_']
+        K = K if isinstance(K, str) else ast.unparse(K)
+        ok = has(f'if {F} is None:\n    {F} = _all_.pop({K}, __)', fn)
+        for n2, b2 in find(f'if {F} is None:\n    {F} = _d_', fn):
+            if isinstance(b2['_d_'], str) and has(
+                    f"{b2['_d_']} = _all_.pop({K}, __)", fn):
+                ok = True
+        ctx.check('C18.Q4.precedence', f'[files] terminal value of {K}', ok,
+                  f'the terminal value of {K} does not override the '
+                  'configuration file (expected: use the configuration value '
+                  'only if the terminal value is None)', ctx.where(pm, n_))
     # Q4c: an option given on the terminal must still consume its
     # configuration twin, else the twin is left in the section remainder and
     # the run is rejected as "unexpected parameter"
